@@ -59,8 +59,9 @@ def static_step(S):
     if cached:
         old = S.new(POINTS, S.tensor("cache", [n, 2]), S.new(R2, "x"))
         st.f["created_points"] = old
-        if I is not math.inf:
-            S.assume(zint(c) + 1 <= zint(I))  # invariant: uses = c+1 <= I
+        # NO upper bound on the use counter: StaticSampler.make_static(new_interval) may lower the interval
+        # below the uses the cached set already has (re-staticising mid-cycle); the interval has then elapsed
+        # and the next call must draw a fresh set.
     else:
         old = None
     st.f["counter"] = c
@@ -81,7 +82,7 @@ def static_step(S):
         S.ensure("wrapped-sampler-untouched", len(inner.calls) == 0)
         S.ensure("use-counter-incremented", zint(S.getattr(st, "counter")) == zint(c) + 1)
         if I is not math.inf:
-            S.ensure("invariant-preserved", zint(S.getattr(st, "counter")) + 1 <= zint(I))
+            S.ensure("cached-set-is-within-its-interval", zint(S.getattr(st, "counter")) + 1 <= zint(I))
     else:
         S.ensure("exactly-one-fresh-draw", len(inner.calls) == 1)
         if len(inner.calls) == 1:
@@ -166,3 +167,23 @@ def adaptive_keeps_high_loss_points(S):
     S.ensure("fresh-rows-inside-domain", dom.in_pred(xs, []), hy)
     S.ensure("threshold-between-min-and-max", z3.And(m_min <= lr, lr <= m_max), hy + inst)
     S.canary("all-rows-replaced", cur.at(q) == fresh.at(q), hy + inst)
+
+
+@scenario("C15", [SS + ".make_static", SS + ".sample_points"], configs=["lower-the-interval-mid-cycle"])
+def restaticising_with_an_elapsed_interval_resamples(S):
+    """history: a cached set already used `used` times, then make_static(J) with J <= used: the interval has
+    elapsed, the next call draws a fresh set and later calls follow the new interval"""
+    n = S.int("n", 1)
+    inner = AbstractSampler(S, "inner", S.new(R2, "x"), n)
+    st = S.new(SS, inner.obj, S.int("I", 1))
+    old = S.new(POINTS, S.tensor("cache", [n, 2]), S.new(R2, "x"))
+    used = S.int("used", 1)
+    st.f["created_points"] = old
+    st.f["counter"] = Sym(zint(used) - 1, "int")
+    J = S.int("J", 1)
+    S.assume(zint(J) <= zint(used))
+    r0 = S.method(st, "make_static", J)
+    S.ensure("make-static-returns-the-same-sampler", r0 is st)
+    r1 = S.method(st, "sample_points")
+    S.ensure("elapsed-interval-forces-a-fresh-draw", r1 is not old and len(inner.calls) == 1)
+    S.ensure("counter-restarts", zint(S.getattr(st, "counter")) == 0)
